@@ -14,7 +14,7 @@ import (
 func init() {
 	register(&propCheck{
 		id:   "C16",
-		pkgs: []string{"mod/modcache"},
+		pkgs: []string{"mod/modcache", "mod/modregistry"},
 		run:  checkC16,
 		about: "C16 (module cache never serves a partial download): decides the ORDER OF EFFECTS of the fetch protocol on every control-flow path of " +
 			"(*Cache).Fetch, downloadDir, downloadZip, downloadZip1, fetchModFileData, downloadModFile1, writeDiskCache and lockVersion: lock held around extraction, " +
@@ -48,6 +48,7 @@ func checkC16(c *Ctx) {
 	c16SingleFlight(c)
 	c16Ownership(c)
 	c16Misc(c)
+	c16SourceVerified(c)
 	c.expect("fetch.unzip-under-lock", 1)
 	c.expect("fetch.marker-before-unzip", 1)
 	c.expect("fetch.marker-removed-before-success", 1)
@@ -500,6 +501,16 @@ func c16DownloadDir(c *Ctx) {
 		}
 		c.check("downloadDir.returns-checked-dir", name, p, okSame, "the directory returned on success must be the one that was stat'ed")
 	}
+	// downloadDir runs without the version lock. The writer (Fetch) creates the
+	// marker, then the directory, and removes the marker last; a lock-free
+	// reader is sound only if it reads in the opposite order — directory first,
+	// marker second: "directory present, then marker absent" implies the marker
+	// was removed after the directory was complete. Marker first, directory
+	// second can see "no marker" before the extraction starts and the directory
+	// while it is being filled.
+	r := g.reach([]int{g.Entry}, func(x int) bool { return x == statDir }, nil)
+	c.check("downloadDir.marker-read-after-directory", f.Name, g.pos(statPartial), !r[statPartial] || statPartial == statDir,
+		"the lock-free availability test must stat the extraction directory before the .partial marker on every path (reverse of the writer's order: marker created, directory created, marker removed); with the marker read first a reader can report a directory that is still being extracted")
 	// the marker path checked here is the one Fetch writes: both originate
 	// from cachePath(_, "partial") (checked by c16IsPartial on both sides).
 }
@@ -1044,4 +1055,173 @@ func c16Misc(c *Ctx) {
 		}
 		c.check("fetch.zip-path-needs-file", cl.Name, cl.Body.Pos(), okZ, "downloadZip may return the zip path only if the file was found (os.Stat) or downloadZip1 succeeded")
 	}
+}
+
+// c16SourceVerified: what downloadZip1 renames into the cache is a copy of a
+// registry blob. Two conditions make "the copy ended" mean "the blob is
+// complete": (1) the source reader's Close error is checked before the rename
+// — Module.GetZip documents that the contents are not to be trusted until
+// Close has succeeded; (2) the readers modregistry.Module hands out verify the
+// byte count and the digest against the manifest's layer descriptor, because
+// a registry implementation may end a short body with a clean EOF (only the
+// HTTP client happens to check Content-Length). Without either, a truncated
+// zip or module file is renamed into place and served for ever.
+func c16SourceVerified(c *Ctx) {
+	// (1) Close of the blob reader checked before the rename
+	f := c.fn("mod/modcache", "(*Cache).downloadZip1")
+	g := c.graph(f)
+	info := f.Info()
+	var rVar types.Object
+	for id, call := range g.callNodes("mod/modregistry.(*Module).GetZip") {
+		if as, ok := g.Nodes[id].N.(*ast.AssignStmt); ok && len(as.Rhs) == 1 && ast.Unparen(as.Rhs[0]) == call {
+			rVar = identObj(info, as.Lhs[0])
+		}
+	}
+	if rVar == nil {
+		c.broken("anchor: downloadZip1 no longer obtains the zip through (*Module).GetZip")
+	}
+	closeR := g.callNodesWhere(func(call *ast.CallExpr) bool {
+		sel, ok := ast.Unparen(call.Fun).(*ast.SelectorExpr)
+		return ok && sel.Sel.Name == "Close" && identObj(info, sel.X) == rVar
+	}, "io.Closer.Close", "io.ReadCloser.Close")
+	rename := keys(g.callNodes("os.Rename", "internal/robustio.Rename"))
+	ok := len(closeR) > 0 && len(rename) > 0
+	det := ""
+	if len(closeR) == 0 {
+		det = ": the reader is only closed by a deferred call, whose error is discarded"
+	} else {
+		bad, st := g.onlyAfterSuccess(closeR, rename)
+		if len(bad) > 0 {
+			ok = false
+			det = ": " + maskStr(st)
+		}
+	}
+	var pos token.Pos
+	if len(rename) > 0 {
+		pos = g.pos(rename[0])
+	}
+	c.check("temp-rename.source-close-checked-before-rename", f.Name, pos, ok,
+		"the temp file may be renamed to the cache path only after the blob reader's Close has succeeded (GetZip: \"the contents should not be assumed to be correct until the close error has been checked\")"+det)
+
+	// (2) every blob reader of Module is verified against the layer descriptor
+	mp := c.pkg("mod/modregistry")
+	n := 0
+	for _, fn := range c.funcs(mp) {
+		if fn.Decl == nil || fn.Decl.Recv == nil || !strings.Contains(fn.Name, "(*Module).") {
+			continue
+		}
+		finfo := fn.Info()
+		fg := c.graph(fn)
+		blobCalls := map[int]*ast.CallExpr{}
+		for _, id := range fg.find(func(x ast.Node) bool {
+			found := false
+			ast.Inspect(x, func(y ast.Node) bool {
+				if _, isLit := y.(*ast.FuncLit); isLit {
+					return false
+				}
+				if call, ok := y.(*ast.CallExpr); ok {
+					if nm := calleeName(finfo, call); strings.HasPrefix(nm, "cuelabs.dev/go/oci/ociregistry.") && strings.HasSuffix(nm, ".GetBlob") {
+						found = true
+					}
+				}
+				return true
+			})
+			return found
+		}) {
+			ast.Inspect(fg.Nodes[id].N, func(y ast.Node) bool {
+				if call, ok := y.(*ast.CallExpr); ok {
+					if nm := calleeName(finfo, call); strings.HasSuffix(nm, ".GetBlob") {
+						blobCalls[id] = call
+					}
+				}
+				return true
+			})
+		}
+		for id, call := range blobCalls {
+			n++
+			var rv types.Object
+			if as, ok := fg.Nodes[id].N.(*ast.AssignStmt); ok && len(as.Rhs) == 1 && ast.Unparen(as.Rhs[0]) == call {
+				rv = identObj(finfo, as.Lhs[0])
+			}
+			okUse := rv != nil
+			var badUse string
+			verified := false
+			if rv != nil {
+				ast.Inspect(fn.Body, func(x ast.Node) bool {
+					switch e := x.(type) {
+					case *ast.CallExpr:
+						for _, a := range e.Args {
+							if identObj(finfo, a) != rv {
+								continue
+							}
+							callee := calleeName(finfo, e)
+							if c16VerifyingCtor(c, callee) {
+								verified = true
+							} else {
+								okUse = false
+								badUse = "passed to " + callee
+							}
+						}
+					case *ast.ReturnStmt:
+						for _, r := range e.Results {
+							if identObj(finfo, r) == rv {
+								okUse = false
+								badUse = "returned as is"
+							}
+						}
+					}
+					return true
+				})
+			} else {
+				badUse = "returned as is"
+			}
+			c.check("blob.reader-verified-against-descriptor", fn.Name, call.Pos(), okUse && verified,
+				"a blob reader that Module hands out (or reads) must go through a wrapper that compares the bytes read with the Size and the Digest of the manifest's layer descriptor: a registry that ends a short body with a clean EOF otherwise yields a truncated zip or module file that the cache keeps for ever ("+badUse+")")
+		}
+	}
+	c.expect("blob.reader-verified-against-descriptor", 2)
+	_ = n
+}
+
+// c16VerifyingCtor: callee is a function of mod/modregistry whose result type
+// has a Read method that compares against a descriptor's Size and Digest.
+func c16VerifyingCtor(c *Ctx, callee string) bool {
+	if !strings.HasPrefix(callee, "mod/modregistry.") {
+		return false
+	}
+	f := c.fnOpt("mod/modregistry", strings.TrimPrefix(callee, "mod/modregistry."))
+	if f == nil || f.Decl == nil || f.Decl.Type.Results == nil || len(f.Decl.Type.Results.List) != 1 {
+		return false
+	}
+	rt := f.Info().TypeOf(f.Decl.Type.Results.List[0].Type)
+	if pt, ok := rt.(*types.Pointer); ok {
+		rt = pt.Elem()
+	}
+	named, ok := types.Unalias(rt).(*types.Named)
+	if !ok {
+		return false
+	}
+	read := c.fnOpt("mod/modregistry", "(*"+named.Obj().Name()+").Read")
+	if read == nil {
+		return false
+	}
+	size, dig := false, false
+	ast.Inspect(read.Body, func(x ast.Node) bool {
+		be, ok := x.(*ast.BinaryExpr)
+		if !ok || (be.Op != token.EQL && be.Op != token.NEQ) {
+			return true
+		}
+		for _, s := range []ast.Expr{be.X, be.Y} {
+			if sel, ok := ast.Unparen(s).(*ast.SelectorExpr); ok {
+				switch sel.Sel.Name {
+				case "Size":
+					size = true
+				case "Digest":
+					dig = true
+				}
+			}
+		}
+		return true
+	})
+	return size && dig
 }
